@@ -1,7 +1,7 @@
 """C13 — shutdown refuses new work, answers every pending command, never blocks.  (DESIGN §4 C13)"""
 from core import (bool_branches, bool_branch, site_effects, is_effectful, is_call_to, fmt, enum_paths, path_return,
                   ret_variant, path_atoms, variant_edges, strip_site, subexprs, const_of, mentions)
-from ackmodel import AckModel
+from ackmodel import AckModel, worker_root
 import c11
 
 WITNESSES = ['W6ExecutorUnreachable']
@@ -236,7 +236,8 @@ def run(ctx):
     else:
         c11.worker_loop(ctx, A, W, "R13.3", drain_liveness=True)
         drains = [bb for f, bb, t, m in A.recv_sites if m == "iter_next" and f is W]
-        ctx.floor("R13.3", "drain receive sites in the worker", len(drains), 1)
+        n_foreach = len([bb for f, bb, t, m in A.recv_sites if m == "iter_for_each" and f is W])
+        ctx.floor("R13.3", "drain receive sites in the worker", len(drains) + n_foreach, 1)
         for bb in drains:
             t = W.term(bb)
             ve = variant_edges(W, t["target"])
@@ -252,7 +253,7 @@ def run(ctx):
             for b in sorted(f.live_blocks()):
                 for i, s in enumerate(f.blocks[b]["stmts"]):
                     if s["k"] == "assign" and s["rv"]["k"] == "agg" and s["rv"].get("variant") == "ShuttingDown" and s["rv"].get("adt", "").endswith("CommandStatus"):
-                        sites.append(name)
+                        sites.append(worker_root(F, name, F.spawn_closures()))
         ctx.check(sites and set(sites) == {W.name}, "R13.5", "shutting-down-only-in-drain", "CommandStatus::ShuttingDown is produced only by the worker's drain arm", detail=str(sorted(set(sites))))
 
     senders_all = set(A.send_fns)
